@@ -371,9 +371,9 @@ class Fn:
                 return f'(← Rs.{op.lower()}_{lt} {a} (Rs.toInt_{rt} {b}))'
         if h.startswith('Call') and (s.callee(k)[0] or '').endswith('::rng::Rng::gen_range'):
             # `rng.gen_range(lo..hi)`: the drawn value becomes an extra INPUT of the model, with the contract lo <= r < hi
-            rk=s.unwrap(kid(k,'args:').kids[1])[1]
+            rty,rk=s.unwrap(kid(k,'args:').kids[1])
             nm=f'rng_{len(s.rng_params)+1}'
-            if rk.text.startswith('Call') and 'RangeInclusive' in (s.callee(rk)[0] or ''):
+            if rk.text.startswith('Call') and 'RangeInclusive' in rty:
                 # `lo..=hi` is `RangeInclusive::new(lo, hi)`: contract lo <= r <= hi
                 ra=kid(rk,'args:').kids; lo=s.term(ra[0]); hi=s.term(ra[1])
                 s.rng_params.append((nm,LEANTY[t]))
